@@ -40,7 +40,7 @@ impl AuthParam {
                 ws((
                     take_while(token),
                     tag("="),
-                    alt((parse_quoted, take_while(token))),
+                    alt((parse_quoted, take_while(unquoted_value))),
                 )),
                 move |(name, _, value)| AuthParam {
                     name: BytesStr::from_parse(ctx.src, name),
@@ -49,6 +49,13 @@ impl AuthParam {
             )(i)
         }
     }
+}
+
+/// Unquoted auth-param values are tokens, `username*` carries an RFC 5987 ext-value
+/// whose attr-char set additionally allows `#`, `$`, `&`, `^` and `|`
+/// (all of which [`Username::new`] leaves unencoded).
+fn unquoted_value(c: char) -> bool {
+    token(c) || matches!(c, '#' | '$' | '&' | '^' | '|')
 }
 
 #[derive(Debug, Clone)]
